@@ -353,6 +353,9 @@ impl Check for C12 {
     fn required_counters(&self, _tier: Tier) -> Vec<&'static str> {
         vec!["tags-judged", "golden-vectors", "hostile-inputs", "roundtrip:register_with_payment"]
     }
+    fn miri_lane(&self, tier: Tier) -> Option<(Vec<&'static str>, usize, usize)> {
+        if tier == Tier::Thorough { Some((vec!["record", "message", "address"], 12, 400)) } else { None }
+    }
     fn run_case(&self, cx: &mut Cx) {
         if cx.index == 0 {
             check_tags(cx);
